@@ -81,6 +81,13 @@ def gen_case(rng, supervised, diagonal):
           est = gen.MMC_Supervised(n_constraints=n_c, **kw).fit(X.copy(), y.copy())
         else:
           est = gen.MMC(**kw).fit(pairs.copy(), lab.copy())
+      if init_kind == 'array':
+        # the init option is a MATRIX: the same numbers in a plain C-ordered float64 copy must give the same model
+        kc = dict(kw, init=np.array(init, dtype=float, order='C'))
+        ec = (gen.MMC_Supervised(n_constraints=n_c, **kc).fit(X.copy(), y.copy()) if supervised
+              else gen.MMC(**kc).fit(pairs.copy(), lab.copy()))
+        ev['A_c'] = dym(ec.A_) if not diagonal else dym(np.atleast_2d(ec.components_))
+        ev['A_given'] = dym(est.A_) if not diagonal else dym(np.atleast_2d(est.components_))
       pos, neg = pairs[lab == 1], pairs[lab == -1]
       S = pos[:, 0] - pos[:, 1]
       Dv = neg[:, 0] - neg[:, 1]
